@@ -1,6 +1,9 @@
 package simrt
 
-import "unsafe"
+import (
+	"reflect"
+	"unsafe"
+)
 
 func unsafePtr(b []byte) unsafe.Pointer { return unsafe.Pointer(&b[0]) }
 
@@ -28,5 +31,40 @@ func Tap(name string, args []any, results []any) {
 	if !tapOn {
 		return
 	}
-	taps = append(taps, TapRecord{Name: name, Args: args, Results: results})
+	taps = append(taps, TapRecord{Name: name, Args: snapshotAll(args), Results: snapshotAll(results)})
+}
+
+// snapshotAll copies slices and maps at the moment of the call: the caller is free to sort, cut or overwrite what
+// the engine returned (and does: the CLI re-sorts the result slice in place before printing), and the record must
+// keep what the engine answered, not what became of it.
+func snapshotAll(vs []any) []any {
+	out := make([]any, len(vs))
+	for i, v := range vs {
+		out[i] = snapshot(v)
+	}
+	return out
+}
+
+func snapshot(v any) any {
+	rv := reflect.ValueOf(v)
+	switch rv.Kind() {
+	case reflect.Slice:
+		if rv.IsNil() {
+			return v
+		}
+		cp := reflect.MakeSlice(rv.Type(), rv.Len(), rv.Len())
+		reflect.Copy(cp, rv)
+		return cp.Interface()
+	case reflect.Map:
+		if rv.IsNil() {
+			return v
+		}
+		cp := reflect.MakeMapWithSize(rv.Type(), rv.Len())
+		it := rv.MapRange()
+		for it.Next() {
+			cp.SetMapIndex(it.Key(), it.Value())
+		}
+		return cp.Interface()
+	}
+	return v
 }
